@@ -217,9 +217,15 @@ fn main() -> Result<(), Box<dyn std::error::Error>> {
                 _ = sighup_signal.recv() => {
                     info!("Reloading config");
 
-                    _ = reload_config(client_server_map.clone()).await;
+                    // Not in this loop: a reload that has to connect to servers takes as long as
+                    // the slowest of them, and for that long nobody would be accepted and no signal
+                    // heard. Reloads are serialised in reload_config.
+                    let client_server_map = client_server_map.clone();
+                    tokio::task::spawn(async move {
+                        _ = reload_config(client_server_map).await;
 
-                    get_config().show();
+                        get_config().show();
+                    });
                 },
 
                 // Initiate graceful shutdown sequence on sig int
